@@ -168,8 +168,14 @@ def audit(prop):
 def build_harness(prop):
     out = os.path.join(WORK, prop, "vharness")
     os.makedirs(os.path.dirname(out), exist_ok=True)
-    hdir = os.path.join(VERIF, "harness")
-    # the harness is its own main module; go.sum is the repository's (never written into /repo)
+    # The harness is its own main module, built from a scratch copy whose go.mod points `replace` at
+    # REPO (so VERIF_REPO=<scratch worktree> works) and whose go.sum is the repository's; nothing is
+    # ever written into /repo.
+    hdir = os.path.join(WORK, prop, "harness_src")
+    shutil.rmtree(hdir, ignore_errors=True)
+    shutil.copytree(os.path.join(VERIF, "harness"), hdir)
+    gm = open(os.path.join(hdir, "go.mod")).read().replace("=> /repo", "=> " + REPO)
+    open(os.path.join(hdir, "go.mod"), "w").write(gm)
     try:
         shutil.copyfile(os.path.join(REPO, "go.sum"), os.path.join(hdir, "go.sum"))
     except OSError:
